@@ -20,6 +20,9 @@ func (o *Optimizer) init() error {
 	if err != nil {
 		return err
 	}
+	if err = o.checkFunctionCalls(stmt); err != nil {
+		return err
+	}
 	o.stmt = stmt
 	switch vstmt := stmt.(type) {
 	case *SelectStmt:
@@ -31,6 +34,69 @@ func (o *Optimizer) init() error {
 		o.optimizeDeleteExpressions(vstmt)
 		o.filter = &FilterExec{
 			Ast: vstmt.Where,
+		}
+	}
+	return nil
+}
+
+// checkFunctionCalls makes sure every called function exists and gets the
+// number of arguments it requires, so that such faults are reported when the
+// plan is built instead of when the first row is executed
+func (o *Optimizer) checkFunctionCalls(stmt Statement) error {
+	var (
+		exprs []Expression
+		err   error
+	)
+	switch vstmt := stmt.(type) {
+	case *SelectStmt:
+		exprs = append(exprs, vstmt.Fields...)
+		if vstmt.Where != nil && vstmt.Where.Expr != nil {
+			exprs = append(exprs, vstmt.Where.Expr)
+		}
+	case *DeleteStmt:
+		if vstmt.Where != nil && vstmt.Where.Expr != nil {
+			exprs = append(exprs, vstmt.Where.Expr)
+		}
+	case *PutStmt:
+		for _, kvp := range vstmt.KVPairs {
+			exprs = append(exprs, kvp.Key, kvp.Value)
+		}
+	case *RemoveStmt:
+		exprs = append(exprs, vstmt.Keys...)
+	}
+	for _, expr := range exprs {
+		expr.Walk(func(e Expression) bool {
+			if err != nil {
+				return false
+			}
+			switch fc := e.(type) {
+			case *FieldReferenceExpr:
+				// The referenced field is checked where it is defined
+				return false
+			case *FunctionCallExpr:
+				fname, ferr := GetFuncNameFromExpr(fc)
+				if ferr != nil {
+					err = ferr
+					return false
+				}
+				if fobj, have := GetScalarFunctionByName(fname); have {
+					if !fobj.VarArgs && len(fc.Args) != fobj.NumArgs {
+						err = NewSyntaxError(fc.GetPos(), "Function %s require %d arguments but got %d", fobj.Name, fobj.NumArgs, len(fc.Args))
+					} else if fobj.VarArgs && len(fc.Args) < fobj.NumArgs {
+						err = NewSyntaxError(fc.GetPos(), "Function %s require at least %d arguments but got %d", fobj.Name, fobj.NumArgs, len(fc.Args))
+					}
+				} else if aobj, have := GetAggrFunctionByName(fname); have {
+					if !aobj.VarArgs && len(fc.Args) != aobj.NumArgs {
+						err = NewSyntaxError(fc.GetPos(), "Function %s require %d arguments but got %d", aobj.Name, aobj.NumArgs, len(fc.Args))
+					}
+				} else {
+					err = NewSyntaxError(fc.GetPos(), "Cannot find function %s", fname)
+				}
+			}
+			return err == nil
+		})
+		if err != nil {
+			return err
 		}
 	}
 	return nil
